@@ -255,18 +255,26 @@ def emulated_byte_order_rules(ck, rid):
                       "`%s` is changed after the byte-order reversal and before the store (%s): bytes added or removed there sit on the "
                       "wrong end for one of the two byte orders" % (name, "; ".join(late)))
             else:
-                # reader: nothing but the reversal happens to the bytes between get_mem and the integer conversion
-                early = []
+                # reader: the bytes reversed are the bytes of vm.get_mem, and nothing else happens to them (the reversed bytes may get a
+                # name of their own: `msb_first = raw[::-1] if little endian else raw`)
+                operand = norm(sub.value)
                 srcs = [s_ for s_ in cfg.nodes if s_.kind == "stmt" and isinstance(s_.ast, ast.Assign) and any(dotted(c.func) == src for c in node_calls(s_))
-                        and isinstance(s_.ast.targets[0], ast.Name) and s_.ast.targets[0].id == name]
-                ck.ob(rid, "EmulatedSymbExec.%s:reverses-read-bytes" % mname, bool(srcs), em2.where(fn), "the reversed name `%s` does not hold the bytes of %s" % (name, src))
+                        and isinstance(s_.ast.targets[0], ast.Name) and s_.ast.targets[0].id == operand]
+                ck.ob(rid, "EmulatedSymbExec.%s:reverses-read-bytes" % mname, bool(srcs), em2.where(fn),
+                      "the reversed bytes `%s` are not the bytes returned by %s" % (operand, src))
+                early = []
                 for o in cfg.nodes:
                     if o is nd or o.kind != "stmt" or o in srcs:
                         continue
                     a = o.ast
-                    rebind = (isinstance(a, ast.Assign) and any(isinstance(t, ast.Name) and t.id == name for t in a.targets)) or \
-                        (isinstance(a, ast.AugAssign) and isinstance(a.target, ast.Name) and a.target.id == name)
-                    if rebind and any(cfg.can_reach(s_.id, o.id) for s_ in srcs):
-                        early.append(norm(a)[:60])
+                    for nm_ in set([name, operand]):
+                        rebind = (isinstance(a, ast.Assign) and any(isinstance(t, ast.Name) and t.id == nm_ for t in a.targets)) or \
+                            (isinstance(a, ast.AugAssign) and isinstance(a.target, ast.Name) and a.target.id == nm_)
+                        if rebind and any(cfg.can_reach(s_.id, o.id) for s_ in srcs):
+                            early.append(norm(a)[:60])
                 ck.ob(rid, "EmulatedSymbExec.%s:only-reversal" % mname, not early, em2.where(nd.ast),
                       "the bytes read from the VM are changed (%s) besides the byte-order reversal" % "; ".join(early))
+                used = any(isinstance(x, ast.Name) and x.id == name for r_ in walk_body(fn) if isinstance(r_, ast.Return) and r_.value is not None
+                           for x in ast.walk(r_.value))
+                ck.ob(rid, "EmulatedSymbExec.%s:returns-reversed-bytes" % mname, used, em2.where(fn),
+                      "the value returned is not built from the byte-order corrected bytes `%s`" % name)
